@@ -812,11 +812,15 @@ HANDLERS.update({'v3_case': do_v3_case, 'v3_blocks_search': do_v3_blocks_search,
 
 
 # ------------------------------------------------------------------------------ C16 bounded stand-in / replay
-def _mk_raw(keys, rnd=None, ti=None):
+SECS = [0, 1, 1600000000, 2 ** 31 - 1, 2 ** 32 + 5, 2 ** 33, 2 ** 33 + 12345, 2 ** 35 + 7, 2 ** 37 + 1, 253402300799]
+USECS = [0, 1, 3, 499999, 500000, 999999]
+
+
+def _mk_raw(keys, rnd=None, ti=None, ud=None):
     import random
     rnd = rnd or random.Random(1)
     raw = {'cm': 0, 't': 'Log', 's': 'x', 'tid': rnd.randint(1, 99), 'ns': 5, 'mct': 6, 'b': b'b' * 16, 'piu': b'p' * 16,
-           'ud': {'sec': rnd.choice([0, 1, 1600000000, 2 ** 31 - 1]), 'usec': rnd.choice([0, 1, 499999, 500000, 999999])},
+           'ud': ud or {'sec': rnd.choice(SECS), 'usec': rnd.choice(USECS)},
            'utz': {'mw': 120, 'dt': 1}}
     for k in keys:
         if k in ('pip', 'p', 'sip', 'send', 'sub', 'cat', 'f', 'sn'):
@@ -875,7 +879,7 @@ def do_log_case(req, raw=None):
     from pykdebugparser.os_log_event import OsLogEvent
     from spec import logrecord as S
     strings = {0: 'msg', 1: 'proc', 2: 'img', 3: 'sub'}
-    raw = raw if raw is not None else _mk_raw(req['keys'], ti=req.get('ti'))
+    raw = raw if raw is not None else _mk_raw(req['keys'], ti=req.get('ti'), ud=req.get('ud'))
     rawc = copy.deepcopy(raw)
     try:
         ev = OsLogEvent.from_raw_log_event(rawc, strings)
@@ -914,15 +918,25 @@ def do_log_search(req):
             'st', 'ss', 'lsmct', 'lemct', 'lsud', 'leud', 'lsutz', 'leutz', 'bt', 'lc', 'dm']
     tried = 0
     singles = [[k] for k in allk] + [[], allk]
+    bound = 'a grid of %d x %d (second, microsecond) dates up to year 9999; every single optional key, none, all, then random subsets' % (len(SECS), len(USECS))
+    for sec in SECS:
+        for usec in USECS:
+            tried += 1
+            ud = {'sec': sec, 'usec': usec}
+            r = do_log_case({'keys': [], 'ud': ud})
+            if r['violates']:
+                r['request'] = {'kind': 'log_case', 'keys': [], 'ud': ud}
+                return {'tried': tried, 'bound': bound, 'found': r}
+    budget += tried
     while tried < budget:
         keys = singles[tried] if tried < len(singles) else [k for k in allk if rnd.random() < 0.4]
         tried += 1
         raw = _mk_raw(keys, rnd)
         r = do_log_case({'keys': keys}, raw=raw)
         if r['violates']:
-            r['request'] = {'kind': 'log_case', 'keys': keys, 'ti': raw.get('ti')}
-            return {'tried': tried, 'bound': 'every single optional key, none, all, then random subsets; timestamps at boundary values', 'found': r}
-    return {'tried': tried, 'bound': 'every single optional key, none, all, then random subsets; timestamps at boundary values', 'found': None}
+            r['request'] = {'kind': 'log_case', 'keys': keys, 'ti': raw.get('ti'), 'ud': raw['ud']}
+            return {'tried': tried, 'bound': bound, 'found': r}
+    return {'tried': tried, 'bound': bound, 'found': None}
 
 
 HANDLERS.update({'log_case': do_log_case, 'log_search': do_log_search})
